@@ -443,7 +443,7 @@ class Builtins:
             key = S(pos[0])
             has = st.zh["refs_has"][recv.owner.t][key]
             if E.feasible(st, has):
-                yield ("val", LRef(st.zh["refs"][recv.owner.t][key]), st.assume(has))
+                yield ("val", LRef(st.zh["refs"][recv.owner.t][key], E.options.get("list_mk")), st.assume(has))           # (list_mk: a contract may say of which class the collected lines are)
             if E.feasible(st, z3.Not(has)):
                 yield ("val", pos[1] if len(pos) > 1 else None, st.assume(z3.Not(has)))
             return
